@@ -1,7 +1,7 @@
 // factgen_c20 extracts from context/pool.go the shape the Lean model Kit.Pool was written from:
 // the fields of Pool, the statements of NewPool (initial filter, read lock taken before `go`, the
-// watcher's defers in source order, its loop header and body) and the bodies of Add, Cancel and
-// Size, each statement rendered canonically on one line.  It writes them as
+// watcher's defers in source order, its loop header and body) and the bodies of Add, anyLive,
+// Cancel and Size, each statement rendered canonically on one line.  It writes them as
 // lean/KitModel/Generated/C20.lean.  Any statement kind it does not know makes it exit non-zero:
 // the tie is then reported as broken instead of silently keeping old facts.
 package main
@@ -102,10 +102,11 @@ func stmt(s ast.Stmt) string {
 	case *ast.ForStmt:
 		return "for " + simple(s.Init) + "; " + ex(s.Cond) + "; " + simple(s.Post) + " " + block(s.Body)
 	case *ast.RangeStmt:
+		vars := ex(s.Key)
 		if s.Value != nil {
-			fail(s, "range with value")
+			vars += ", " + ex(s.Value)
 		}
-		return "for " + ex(s.Key) + " " + s.Tok.String() + " range " + ex(s.X) + " " + block(s.Body)
+		return "for " + vars + " " + s.Tok.String() + " range " + ex(s.X) + " " + block(s.Body)
 	case *ast.SelectStmt:
 		var cs []string
 		for _, c := range s.Body.List {
@@ -188,17 +189,17 @@ func main() {
 	if fields == nil {
 		fail(nil, "type Pool not found")
 	}
-	for _, want := range []string{"NewPool", "(*Pool).Add", "(*Pool).Cancel", "(*Pool).Size"} {
+	for _, want := range []string{"NewPool", "(*Pool).Add", "(*Pool).anyLive", "(*Pool).Cancel", "(*Pool).Size"} {
 		if funcs[want] == nil {
 			fail(nil, "function %s not found", want)
 		}
 	}
-	if len(funcs) != 4 {
+	if len(funcs) != 5 {
 		names := []string{}
 		for n := range funcs {
 			names = append(names, n)
 		}
-		fail(nil, "pool.go declares functions other than NewPool/Add/Cancel/Size: %v", names)
+		fail(nil, "pool.go declares functions other than NewPool/Add/anyLive/Cancel/Size: %v", names)
 	}
 	body := func(name string) []string {
 		var xs []string
@@ -264,6 +265,7 @@ func main() {
 	w("watcherLoop", watcherLoop)
 	w("newPoolAfterGo", after)
 	w("addBody", body("(*Pool).Add"))
+	w("anyLiveBody", body("(*Pool).anyLive"))
 	w("cancelBody", body("(*Pool).Cancel"))
 	w("sizeBody", body("(*Pool).Size"))
 	b.WriteString("end Kit.Generated.C20\n")
